@@ -167,6 +167,8 @@ impl State for S {
             ["racek", a, point] => {
                 // ndb_compact on another thread while statement `a` sits inside commit (holding the writer lock)
                 let (Some(db), Some(qa)) = (self.db, cypher_of(a)) else { return "bad-op".into() };
+                // make sure a run is published, so that the compaction has something to do whatever came before
+                exec_write(db, "MATCH (c:C) SET c.v = c.v + 0");
                 let ctl = sched::ctl();
                 let wa = ctl.spawn("A", Some(point), move || exec_write(db, &qa));
                 if ctl.wait("A", sched::LONG) != Wait::Parked {
